@@ -1155,7 +1155,7 @@ class Gen:
         for _ in range(n):
             name = self.fresh("glob", prefix="g_", lo=2, hi=8)
             q = d.weighted([(3, "static "), (2, "const "), (2, "static const "), (1, "")])
-            k = d.weighted([(10, "int"), (4, "str"), (4, "array"), (2, "sized-array"), (2, "fptr"), (1, "str-array"), (1, "designated"), (1, "array2d-init"), (1, "sizeof-div"), (1, "utype-qualified")])
+            k = d.weighted([(8, "int"), (4, "str"), (4, "array"), (2, "sized-array"), (2, "fptr"), (2, "str-array"), (2, "designated"), (1, "array2d-init"), (1, "sizeof-div"), (2, "utype-qualified")])
             if k == "str-array":
                 ty = "static const char" if "static" in q or d.bool() else "const char"
                 vals = []
